@@ -127,37 +127,29 @@ def _near_tie(x):
 
 
 def _indep_metrics(rx, power, bw):
-    """the eleven metrics recomputed from the receiver arrays with plain arithmetic; returns (list, ill)"""
-    ill = False
-
+    """the eleven metrics recomputed from the receiver arrays with plain arithmetic: {metric-type: (value, ill)} where ill marks a
+    2-decimal rounding that sits on a tie (that metric only is not judged)"""
     def avg(a):
-        nonlocal ill
         v = math.fsum(float(x) for x in a) / len(a)
-        ill = ill or _near_tie(v)
-        return _rnd(v)
+        return _rnd(v), _near_tie(v)
 
     def ext(f, a):
-        nonlocal ill
         v = f(float(x) for x in a)
-        ill = ill or _near_tie(v)
-        return _rnd(v)
+        return _rnd(v), _near_tie(v)
 
     def pen(name):
-        nonlocal ill
         if name not in rx.penalties:
-            return 'not evaluated'
+            return 'not evaluated', False
         a = [float(x) for x in np.broadcast_to(rx.penalties[name], (len(rx.snr),))]
         if any(math.isinf(x) for x in a):
-            return 'Infinity'
+            return 'Infinity', False
         v = math.fsum(a) / len(a)
-        ill = ill or _near_tie(v)
-        return _rnd(v)
-    vals = [('SNR-bandwidth', avg(rx.snr)), ('SNR-0.1nm', avg(rx.snr_01nm)), ('OSNR-bandwidth', avg(rx.osnr_ase)),
-            ('OSNR-0.1nm', avg(rx.osnr_ase_01nm)), ('lowest_SNR-0.1nm', ext(min, rx.snr_01nm)),
-            ('biggest_SNR-0.1nm', ext(max, rx.snr_01nm)), ('PDL_penalty', pen('pdl')),
-            ('CD_penalty', pen('chromatic_dispersion')), ('PMD_penalty', pen('pmd')), ('reference_power', power),
-            ('path_bandwidth', bw)]
-    return vals, ill
+        return _rnd(v), _near_tie(v)
+    return {'SNR-bandwidth': avg(rx.snr), 'SNR-0.1nm': avg(rx.snr_01nm), 'OSNR-bandwidth': avg(rx.osnr_ase),
+            'OSNR-0.1nm': avg(rx.osnr_ase_01nm), 'lowest_SNR-0.1nm': ext(min, rx.snr_01nm),
+            'biggest_SNR-0.1nm': ext(max, rx.snr_01nm), 'PDL_penalty': pen('pdl'),
+            'CD_penalty': pen('chromatic_dispersion'), 'PMD_penalty': pen('pmd'), 'reference_power': (power, False),
+            'path_bandwidth': (bw, False)}
 
 
 def _metric_eq(a, b):
@@ -188,8 +180,10 @@ def run(case, drv):
                         strict_unknown_include=[bool(r['include']) and r['strict'] and any(
                             x not in {n.uid for n in net.nodes()} for x in r['include']) for r in reqs])
     res.cmp_exact('planning.error_kind', impl_err, model_err)
-    if impl_err != exp_err:
-        res.fail(f'batch check: a batch with {mal or "valid"} requests gave {impl_err}, must give {exp_err}')
+    # monitor: accepted vs rejected only (the error KIND is correspondence)
+    if (impl_err is None) != (exp_err is None):
+        res.fail(f'batch check: a batch with {mal or "valid"} requests was {"accepted" if impl_err is None else "rejected (" + impl_err + ")"}, '
+                 f'must be {"accepted" if exp_err is None else "rejected"}')
     res.stats.update({'batches': 1, f'batch_{impl_err or "accepted"}': 1})
     if impl_err or exp_err:
         res.nontrivial = True
@@ -223,14 +217,14 @@ def run(case, drv):
         args.append({'req': _req_json(rq), 'path': [{'uid': e.uid, 'is_trx': isinstance(e, Transceiver)} for e in p],
                      'fwd': _recv_json(p[-1]) if p else None, 'rev': _recv_json(rp[-1]) if rp else None})
     ans = drv.ask('c19.results', results=args)
-    any_ill = False
+    ill_rows = set()
     for i, (a, j) in enumerate(zip(ans, impl)):
         if 'error' in a or 'error' in j:
             res.cmp_exact('ResultElement.json.error_kind', j.get('error'), a.get('error'), index=i)
             continue
         if b2f(a['tie']) < 1e-4:
             res.ill += 1
-            any_ill = True
+            ill_rows.add(i)      # a 2-decimal rounding of THIS response sits on a tie: this response / CSV row only is skipped
             continue
         res.cmp_exact('ResultElement.json', j, batch_g.dec(a['ok']), index=i)
     if json_errors:
@@ -251,8 +245,10 @@ def run(case, drv):
     margin = eq['SI']['default'].sys_margins
     cans = drv.ask('c19.csv', lib=lib, margin=f2b(margin), responses=[batch_g.enc(j) for j in impl])
     res.cmp_exact('jsontocsv.rows', len(rows), len(impl))
-    if not any_ill and len(rows) == len(impl):
+    if len(rows) == len(impl):
         for i, (row, m) in enumerate(zip(rows, cans)):
+            if i in ill_rows:
+                continue
             if 'error' in m:
                 res.mismatch('jsontocsv.row', row, m['error'], index=i)
                 continue
@@ -390,13 +386,23 @@ def _monitor(res, case, ctx, rqs, pp, rpp, impl, rows):
     if sorted(seen) != sorted(by_id):
         res.fail(f'one response per request: request ids {sorted(by_id)} are reported as {[j["response-id"] for j in impl]}')
     margin = eq['SI']['default'].sys_margins
-    for j, rq, p, rp, row in zip(impl, rqs, pp, rpp, rows):
+    objs = {rq.request_id: (rq, p, rp) for rq, p, rp in zip(rqs, pp, rpp)}
+    rows_by_id = {row['response-id']: row for row in rows}
+    # the ORDER of responses / CSV rows is correspondence only; the monitor matches them by id
+    res.cmp_exact('results_to_json.order', [j['response-id'] for j in impl], [rq.request_id for rq in rqs])
+    res.cmp_exact('jsontocsv.order', [row['response-id'] for row in rows], [j['response-id'] for j in impl])
+    if sorted(rows_by_id) != sorted(j['response-id'] for j in impl):
+        res.fail(f'csv: rows {sorted(rows_by_id)} do not cover the responses {sorted(j["response-id"] for j in impl)} once each')
+    for j in impl:
         rid = j['response-id']
         parts = rid.split(' | ')
         members = [by_id[x] for x in parts if x in by_id]
         what = f'response {rid}'
-        if rid != rq.request_id:
-            res.fail(f'response id: {what} stands for request object {rq.request_id}')
+        if rid not in objs or rid not in rows_by_id:
+            res.fail(f'response id: {what} does not stand for a request of the batch / has no CSV row')
+            continue
+        rq, p, rp = objs[rid]
+        row = rows_by_id[rid]
         if len(members) > 1:
             def ident(m):
                 d = {k: m[k] for k in ('src', 'dst', 'type', 'mode', 'spacing', 'include', 'strict', 'bidir')}
@@ -413,8 +419,6 @@ def _monitor(res, case, ctx, rqs, pp, rpp, impl, rows):
                 res.fail(f'bidirectional: request {m["id"]} is {"bi" if m["bidir"] else "uni"}directional but is answered by {what}, '
                          f'which is {"bi" if rq.bidir else "uni"}directional: it would {"lose" if m["bidir"] else "gain"} its z-a direction')
         reason = getattr(rq, 'blocking_reason', None)
-        if row['response-id'] != rid:
-            res.fail(f'csv: row of {what} carries id {row["response-id"]}')
         if reason in NOPATH:
             if set(j) != {'response-id', 'no-path'} or j['no-path'] != {'no-path': reason}:
                 res.fail(f'blocked shape: {what} blocked with {reason} must carry only its reason, got {str(j)[:200]}')
@@ -433,8 +437,7 @@ def _monitor(res, case, ctx, rqs, pp, rpp, impl, rows):
                 continue
             props = j['path-properties']
         pros = [x['path-route-object'] for x in props['path-route-objects']]
-        if [x['index'] for x in pros] != list(range(len(pros))):
-            res.fail(f'route objects: {what}: indices are not 0..{len(pros) - 1}')
+        res.cmp_exact('ResultElement.route_object_indices', [x['index'] for x in pros], list(range(len(pros))))
         hops = [x['num-unnum-hop']['node-id'] for x in pros if 'num-unnum-hop' in x]
         # hop by hop: the propagated path, which must be a route of the network from source to destination
         if hops != [e.uid for e in p]:
@@ -453,10 +456,13 @@ def _monitor(res, case, ctx, rqs, pp, rpp, impl, rows):
                 res.fail(f'blocked shape: {what} blocked with {reason} keeps N={rq.N} M={rq.M}')
         else:
             exp_lab = [{'N': n, 'M': m} for n, m in zip(rq.N, rq.M)]
-            if len(labels) != len(hops) or any(lab != exp_lab for lab in labels):
-                res.fail(f'labels: {what}: label hops {labels[:1]} are not the assigned N={rq.N} M={rq.M} after every hop')
-        if len(tsps) != 2 or any(t != {'transponder-type': rq.tsp, 'transponder-mode': rq.tsp_mode} for t in tsps):
+            key_ = lambda lab: sorted((str(x['N']), str(x['M'])) for x in lab)     # noqa: E731
+            if not labels or any(key_(lab) != key_(exp_lab) for lab in labels):
+                res.fail(f'labels: {what}: label hops {labels[:1]} are not the assigned N={rq.N} M={rq.M}')
+            res.cmp_exact('ResultElement.label_hop_layout', [len(labels), labels[:1]], [len(hops), [exp_lab]])
+        if not tsps or any(t != {'transponder-type': rq.tsp, 'transponder-mode': rq.tsp_mode} for t in tsps):
             res.fail(f'transponder: {what}: reported {tsps}, request has {rq.tsp} / {rq.tsp_mode}')
+        res.cmp_exact('ResultElement.transponder_objects', len(tsps), 2)
         if rq.tsp != members[0]['type'] or (members[0]['mode'] is not None and rq.tsp_mode != members[0]['mode']):
             res.fail(f'transponder: {what}: type/mode {rq.tsp}/{rq.tsp_mode} differ from the requested ones')
         # the reference power reported is the request's OWN (output-power of the document, else the library default), and the
@@ -471,8 +477,8 @@ def _monitor(res, case, ctx, rqs, pp, rpp, impl, rows):
         for path_, name in ((p, 'forward'), (rp if rq.bidir else [], 'reverse')):
             if path_ and getattr(path_[-1], 'tx_power', None) is not None and \
                     any(abs(float(x) - own_tx) > 1e-12 * max(1.0, own_tx) for x in np.atleast_1d(path_[-1].tx_power)):
-                res.fail(f'power: {what} {name} direction was propagated with transceiver power '
-                         f'{float(np.atleast_1d(path_[-1].tx_power)[0])} W, its own request states {own_tx} W')
+                res.mismatch('cross-property:C16 propagated transceiver power', float(np.atleast_1d(path_[-1].tx_power)[0]), own_tx,
+                             response=rid, direction=name)
         res.stats['responses_with_own_tx_power'] += int(members[0].get('tx_power') is not None)
         power = own_power
         for key, path_, name in (('path-metric', p, 'forward'), ('z-a-path-metric', rp, 'reverse')):
@@ -488,14 +494,19 @@ def _monitor(res, case, ctx, rqs, pp, rpp, impl, rows):
             if not path_:
                 res.fail(f'bidirectional: {what}: no propagated {name} path')
                 continue
-            exp, ill = _indep_metrics(path_[-1], power, bw)
-            got = [(x['metric-type'], x['accumulative-value']) for x in props[key]]
-            if ill:
-                ill_any = True
+            exp = _indep_metrics(path_[-1], power, bw)
+            got = {x['metric-type']: x['accumulative-value'] for x in props[key]}
+            res.cmp_exact('ResultElement.path_metric_order', [x['metric-type'] for x in props[key]], list(exp))
+            if set(got) != set(exp):
+                res.fail(f'metrics: {what} {name}: reported metric types {sorted(got)}, expected {sorted(exp)}')
                 continue
-            if [g[0] for g in got] != [e[0] for e in exp] or any(not _metric_eq(g[1], e[1]) for g, e in zip(got, exp)):
-                bad = next((g, e) for g, e in zip(got, exp) if g[0] != e[0] or not _metric_eq(g[1], e[1]))
-                res.fail(f'metrics: {what} {name}: reported {bad[0]}, the {name} receiver / request gives {bad[1]}')
+            for mt, (val, ill) in exp.items():
+                if ill:
+                    ill_any = True
+                    continue
+                if not _metric_eq(got[mt], val):
+                    res.fail(f'metrics: {what} {name}: reported {mt} = {got[mt]}, the {name} receiver / request gives {val}')
+                    break
         if rq.bidir and rp and p and hops and [e.uid for e in rp][0] != dst:
             res.fail(f'bidirectional: {what}: the reverse path does not start at the destination')
         # ---- CSV row --------------------------------------------------------------------------------------------------------
@@ -507,18 +518,28 @@ def _monitor(res, case, ctx, rqs, pp, rpp, impl, rows):
                 return float(row[k])
             except ValueError:
                 return None
-        checks = [('source', src), ('destination', dst), ('transponder-type', rq.tsp), ('transponder-mode', rq.tsp_mode),
-                  ('path', ' | '.join(hops))]
+        checks = [('source', src), ('destination', dst), ('transponder-type', rq.tsp), ('transponder-mode', rq.tsp_mode)]
         for k, v in checks:
-            if row[k] != v:
+            if row[k].strip() != v:
                 res.fail(f'csv: {what}: column {k} = {row[k]!r}, response says {v!r}')
+        if [x.strip() for x in row['path'].split('|')] != hops:
+            res.fail(f'csv: {what}: column path = {row["path"][:80]!r} does not list the hops of the response')
+        res.cmp_exact('jsontocsv.path_text', row['path'], ' | '.join(hops))
+
+        def pen_ok(cell, val):
+            if isinstance(val, str):
+                return cell.strip() == val
+            try:
+                return abs(float(cell) - val) <= 1e-9
+            except ValueError:
+                return False
         for k, mk in (('SNR-0.1nm (min)', 'lowest_SNR-0.1nm'), ('SNR-0.1nm (max)', 'biggest_SNR-0.1nm'),
                       ('SNR-0.1nm (average)', 'SNR-0.1nm'), ('OSNR-0.1nm (average)', 'OSNR-0.1nm'),
                       ('SNR-bandwidth (average)', 'SNR-bandwidth')):
             if num(k) is None or abs(num(k) - pm[mk]) > 1e-9:
                 res.fail(f'csv: {what}: column {k} = {row[k]}, response metric {mk} = {pm[mk]}')
         for k, mk in (('PDL_penalty', 'PDL_penalty'), ('CD_penalty', 'CD_penalty'), ('PMD_penalty', 'PMD_penalty')):
-            if row[k] != str(pm[mk]) and (num(k) is None or isinstance(pm[mk], str) or abs(num(k) - pm[mk]) > 1e-9):
+            if not pen_ok(row[k], pm[mk]):
                 res.fail(f'csv: {what}: column {k} = {row[k]}, response metric = {pm[mk]}')
         if mode is not None:
             thr = mode['OSNR'] + margin
@@ -534,7 +555,7 @@ def _monitor(res, case, ctx, rqs, pp, rpp, impl, rows):
                 res.stats['served_at_exact_tie'] += int(pm['lowest_SNR-0.1nm'] == thr)
                 gb, gr = bw * 1e-9, mode['bit_rate'] * 1e-9
                 nb = math.ceil(round(gb, 2) / round(gr, 2))
-                if row['nb of tsp pairs'] != str(nb):
+                if num('nb of tsp pairs') is None or num('nb of tsp pairs') != nb:
                     res.fail(f'csv: {what}: nb of tsp pairs {row["nb of tsp pairs"]}, bandwidth {gb} / bit rate {gr} needs {nb}')
                 pin = round(10 * math.log10(own_power * 1e3), 2)
                 if num('input power (dBm)') is None or abs(num('input power (dBm)') - pin) > 0.011:
@@ -543,8 +564,11 @@ def _monitor(res, case, ctx, rqs, pp, rpp, impl, rows):
                 if num('path_bandwidth') is None or abs(num('path_bandwidth') - round(gb, 2)) > 1e-9:
                     res.fail(f'csv: {what}: path_bandwidth column {row["path_bandwidth"]} for {gb} Gbit/s')
                 lab_txt = f'{[n for n in rq.N]}, {[m for m in rq.M]}'
-                if row['spectrum (N,M)'] != lab_txt:
-                    res.fail(f'csv: {what}: spectrum column {row["spectrum (N,M)"]!r}, assigned {lab_txt!r}')
+                import re as _re
+                cells = [x.strip() for x in _re.split(r'[\[\],|]', row['spectrum (N,M)']) if x.strip()]
+                if sorted(cells) != sorted(str(x) for x in list(rq.N) + list(rq.M)):
+                    res.fail(f'csv: {what}: spectrum column {row["spectrum (N,M)"]!r} does not state the assigned N={rq.N} M={rq.M}')
+                res.cmp_exact('jsontocsv.spectrum_text', row['spectrum (N,M)'], lab_txt)
             else:
                 if row['Pass?'] != reason:
                     res.fail(f'csv: {what}: Pass? = {row["Pass?"]} for a request blocked with {reason}')
@@ -556,6 +580,10 @@ def _monitor(res, case, ctx, rqs, pp, rpp, impl, rows):
                           ('reversed path OSNR-0.1nm (average)', 'OSNR-0.1nm'), ('reversed path SNR-0.1nm (max)', 'biggest_SNR-0.1nm'),
                           ('reversed path SNR-bandwidth (average)', 'SNR-bandwidth')):
                 if num(k) is None or abs(num(k) - zm[mk]) > 1e-9:
+                    res.fail(f'csv: {what}: column {k} = {row[k]}, z-a metric {mk} = {zm[mk]}')
+            for k, mk in (('reversed path PDL_penalty', 'PDL_penalty'), ('reversed path CD_penalty', 'CD_penalty'),
+                          ('reversed path PMD_penalty', 'PMD_penalty')):
+                if not pen_ok(row[k], zm[mk]):
                     res.fail(f'csv: {what}: column {k} = {row[k]}, z-a metric {mk} = {zm[mk]}')
         elif any(row[k] != '' for k in REV_FIELDS):
             res.fail(f'csv: {what}: reverse columns filled for a unidirectional request')
@@ -573,15 +601,19 @@ def _monitor(res, case, ctx, rqs, pp, rpp, impl, rows):
         pa = ja.get('path-properties') or ja.get('no-path', {}).get('path-properties')
         res.stats['bidir_compared_with_alone'] += 1
         if pa is None:
-            res.fail(f'alone vs batch: response {rid} has path properties in the batch but none when computed alone')
+            res.mismatch('cross-property:C16 path properties alone vs batch', 'present in the batch', 'absent alone', response=rid)
             continue
         for key, name in (('path-metric', 'forward'), ('z-a-path-metric', 'z-a')):
-            a = [[x['metric-type'], x['accumulative-value']] for x in props.get(key, [])]
-            b = [[x['metric-type'], x['accumulative-value']] for x in pa.get(key, [])]
+            a = {x['metric-type']: x['accumulative-value'] for x in props.get(key, [])}
+            b = {x['metric-type']: x['accumulative-value'] for x in pa.get(key, [])}
             if a != b:
-                bad = next(((x, y) for x, y in zip(a, b) if x != y), (a[:1], b[:1]))
-                res.fail(f'alone vs batch: {name} metrics of bidirectional request {rid} in the batch {bad[0]} differ from the same '
-                         f'request computed alone on a freshly designed network {bad[1]}')
+                bad = next(((k_, a.get(k_), b.get(k_)) for k_ in list(a) + list(b) if a.get(k_) != b.get(k_)))
+                if name == 'z-a':
+                    # C19's own statement: the z-a metrics reported are those of the request's OWN reverse direction
+                    res.fail(f'alone vs batch: z-a metric {bad[0]} of bidirectional request {rid} is {bad[1]} in the batch; the same '
+                             f'request computed alone on a freshly designed network reports {bad[2]}')
+                else:
+                    res.mismatch('cross-property:C16 forward metrics alone vs batch', {bad[0]: bad[1]}, {bad[0]: bad[2]}, response=rid)
                 break
     # ---- uni/bidirectional twins: what the forward direction established (blocking reason, mode, forward metrics) coincides ----
     resp = {j['response-id']: j for j in impl}
@@ -616,11 +648,10 @@ def _monitor(res, case, ctx, rqs, pp, rpp, impl, rows):
             ra, rb = view(resp[a])[0], view(resp[b])[0]
             res.stats['loose_strict_twins'] += 1
             if ra != 'feasible' and ra in NOPATH:
-                res.fail(f'twins: request {a} has only LOOSE include nodes that cannot be honoured and must get the unconstrained '
-                         f'route, but is blocked with {ra}')
+                res.mismatch('cross-property:C11 LOOSE twin with an unsatisfiable include list', ra, 'routed (unconstrained)', request=a)
             if rb != 'NO_PATH_WITH_CONSTRAINT':
-                res.fail(f'twins: request {b} has a STRICT include list that no route can honour and must be blocked '
-                         f'NO_PATH_WITH_CONSTRAINT, but reports {rb}')
+                res.mismatch('cross-property:C11 STRICT twin with an unsatisfiable include list', rb, 'NO_PATH_WITH_CONSTRAINT',
+                             request=b)
     srcs = [by_id[x]['src'] for x in by_id if by_id[x]['bidir']]
     res.stats['batches_with_two_bidir_from_same_source'] += int(len(srcs) != len(set(srcs)))
     if ill_any:
